@@ -311,3 +311,48 @@ fn c06_index_literal_rule() {
     kani::cover!(res.is_ok() && n == 0);
     std::mem::forget(res);
 }
+
+// ---- C05: invalid escape followed by a multi-byte character ---------------
+// `"\<c>` with c any 2-byte (resp. any 3-byte E1..EC-led) UTF-8 character: the
+// quoted-string lexer must return an error whose span is exactly that
+// character - a span cut inside it panics when sliced (not a char boundary).
+macro_rules! escape_non_ascii_harness {
+    ($name:ident, $w:expr, $unwind:expr) => {
+        #[kani::proof]
+        #[kani::unwind($unwind)]
+        fn $name() {
+            let lead: u8 = kani::any();
+            let c1: u8 = kani::any();
+            let c2: u8 = kani::any();
+            kani::assume((0x80..=0xbf).contains(&c1) && (0x80..=0xbf).contains(&c2));
+            let mut buf = [b'\\', lead, c1, c2, b'"'];
+            if $w == 2 {
+                kani::assume((0xc2..=0xdf).contains(&lead));
+                buf[3] = b'"';
+            } else {
+                kani::assume((0xe1..=0xec).contains(&lead));
+            }
+            let len = 1 + $w + 1;
+            // valid UTF-8 by construction (lead / continuation ranges above)
+            let s = unsafe { std::str::from_utf8_unchecked(&buf[..len]) };
+            let res = lex_quoted_string_as_vec(s);
+            match res {
+                Ok(ok) => {
+                    std::mem::forget(ok);
+                    assert!(false, "an escape of a non-ASCII character was accepted");
+                }
+                Err((kind, span)) => {
+                    let is_escape_err = matches!(kind, LexErrorKind::InvalidCharacterEscape);
+                    std::mem::forget(kind);
+                    assert!(is_escape_err, "wrong error kind for an invalid escape");
+                    let off = span.as_ptr() as usize - s.as_ptr() as usize;
+                    assert!(off == 1 && span.len() == $w, "error span is not the escaped character");
+                }
+            }
+            kani::cover!(c1 == 0xbf);
+            kani::cover!(lead & 1 == 1 && c1 == 0x80);
+        }
+    };
+}
+escape_non_ascii_harness!(c05_escape_non_ascii_w2, 2, 2);
+escape_non_ascii_harness!(c05_escape_non_ascii_w3, 3, 2);
